@@ -200,6 +200,7 @@ Section Frag.
         | None => skip_k [10; 13; 10] r3 (fun _ => PH_ok s0 0 sig 0)
         end
       else
+        if (match sig with [] => true | _ => false end) then PH_err E_SigMismatch else
         skip_k [10] r3 (fun _ =>
         match index_crlf (skipn skip header) O with
         | None => PH_err E_Panic
@@ -255,6 +256,7 @@ Section Frag.
         | None => skip_k [10; 13; 10] r3 (fun rl => Some (HFinal sig None (List.length header - List.length rl)))
         end
       else
+        if (match sig with [] => true | _ => false end) then Some (HErr E_SigMismatch) else
         skip_k [10] r3 (fun _ =>
         match index_crlf (skipn skip header) O with
         | None => Some (HErr E_Panic)
@@ -288,6 +290,7 @@ Section Frag.
     | |- context [(?a <? ?b)%Z] => destruct (a <? b)%Z eqn:?
     | |- context [(?a =? ?b)%Z] => destruct (a =? b)%Z eqn:?
     | |- context [negb ?a] => destruct (negb a) eqn:?
+    | |- context [match ?l with [] => true | _ :: _ => false end] => destruct l eqn:?
     end.
 
   Lemma ph_core_hparse : forall s header n,
@@ -301,6 +304,7 @@ Section Frag.
   (* a verdict reached on a header stands when more bytes follow *)
   Ltac mstep H b :=
     match type of H with
+    | context [match ?sg with [] => true | _ :: _ => false end] => destruct sg
     | context [read_and_skip ?e ?l] =>
         let E := fresh "E" in destruct (read_and_skip e l) eqn:E;
         [rewrite (read_and_skip_ok_app _ _ _ b E) | discriminate H | rewrite (read_and_skip_bad_app _ _ b E)]
@@ -330,7 +334,7 @@ Section Frag.
          | E1 : read_until 59 ?r0 [] = Some (?a, ?r1), E2 : read_and_skip chunkSigKw ?r1 = R_ok ?r2,
            E3 : read_until 13 ?r2 [] = Some (?sg, ?r3), E4 : read_and_skip [10] ?r3 = R_ok ?r4 |- _ =>
              destruct (data_hdr_shape _ _ _ _ _ _ _ E1 E2 E3 E4) as [Hs _]; rewrite Hs in Ei;
-             destruct (index_crlf_found (a ++ 59 :: chunkSigKw ++ sg) r4 0) as [n Hn]; rewrite Hn in Ei; discriminate Ei
+             destruct (index_crlf_found (a ++ 59 :: chunkSigKw ++ sg) r4 0) as [n' Hn]; rewrite Hn in Ei; discriminate Ei
          end.
   Qed.
 
@@ -347,11 +351,14 @@ Section Frag.
     apply in_app_or in H. destruct H as [H|H]; [exact (kw_no13 H)|exact (Hs H)].
   Qed.
 
+  Lemma nonempty_match : forall (l : bytes), l <> [] -> (match l with [] => true | _ :: _ => false end) = false.
+  Proof. intros [|x l] H; [congruence|reflexivity]. Qed.
+
   Lemma hparse_dhdr : forall first a sig sz r,
-    ~ In 59 a -> parse_hex a = Some sz -> (sz <? 0)%Z = false -> (sz =? 0)%Z = false -> ~ In 13 sig ->
+    ~ In 59 a -> parse_hex a = Some sz -> (sz <? 0)%Z = false -> (sz =? 0)%Z = false -> ~ In 13 sig -> sig <> [] ->
     hparse first (dhdr first a sig ++ r) = Some (HData sz sig (List.length (dhdr first a sig))).
   Proof.
-    intros first a sig sz r Ha Hp Hneg Hz Hs. unfold hparse, dhdr.
+    intros first a sig sz r Ha Hp Hneg Hz Hs Hsne. unfold hparse, dhdr.
     assert (Hbody : forall skip, skip = List.length (pre first) ->
       match read_until 59 ((a ++ 59 :: chunkSigKw ++ sig ++ [13; 10]) ++ r) [] with
       | Some (sizeStr, r1) =>
@@ -362,6 +369,7 @@ Section Frag.
               | R_ok r2 => match read_until 13 r2 [] with
                            | Some (sig0, r3) =>
                                if (size =? 0)%Z then None
+                               else if (match sig0 with [] => true | _ :: _ => false end) then Some (HErr E_SigMismatch)
                                else match read_and_skip [10] r3 with
                                     | R_ok _ => match index_crlf ((a ++ 59 :: chunkSigKw ++ sig ++ [13; 10]) ++ r) 0 with
                                                 | None => Some (HErr E_Panic) | Some ind => Some (HData size sig0 (ind + skip + 2)) end
@@ -372,7 +380,7 @@ Section Frag.
       | None => None
       end = Some (HData sz sig (List.length (pre first ++ a ++ 59 :: chunkSigKw ++ sig ++ [13; 10])))).
     { intros skip Hskip. rewrite <- app_assoc. cbn [app]. rewrite (read_until_self 59 a _ [] Ha). cbn [app]. rewrite Hp, Hneg.
-      rewrite <- !app_assoc. rewrite read_and_skip_self. cbn [app]. rewrite (read_until_self 13 sig _ [] Hs). cbn [app]. rewrite Hz.
+      rewrite <- !app_assoc. rewrite read_and_skip_self. cbn [app]. rewrite (read_until_self 13 sig _ [] Hs). cbn [app]. rewrite Hz, (nonempty_match sig Hsne).
       cbn [read_and_skip]. rewrite N.eqb_refl.
       replace (a ++ 59 :: chunkSigKw ++ sig ++ 13 :: 10 :: r) with ((a ++ 59 :: chunkSigKw ++ sig) ++ 13 :: 10 :: r)
         by (rewrite <- !app_assoc; cbn [app]; rewrite <- !app_assoc; reflexivity).
@@ -390,6 +398,7 @@ Section Frag.
 
   Ltac istep H :=
     match type of H with
+    | context [match ?sg with [] => true | _ :: _ => false end] => let E := fresh "Esne" in destruct (match sg with [] => true | _ :: _ => false end) eqn:E; [discriminate H|]
     | context [read_and_skip ?e ?l] => let E := fresh "E" in destruct (read_and_skip e l) eqn:E; [| discriminate H | discriminate H]
     | context [read_until ?d ?l ?acc] => let E := fresh "E" in destruct (read_until d l acc) as [[? ?]|] eqn:E; [| discriminate H]
     | context [parse_hex ?a] => let E := fresh "Ehex" in destruct (parse_hex a) eqn:E; [| discriminate H]
@@ -400,7 +409,7 @@ Section Frag.
 
   Lemma hparse_data_inv : forall first H sz sig k, hparse first H = Some (HData sz sig k) ->
     exists a r, H = dhdr first a sig ++ r /\ k = List.length (dhdr first a sig) /\ ~ In 59 a /\ parse_hex a = Some sz /\
-                (sz <? 0)%Z = false /\ (sz =? 0)%Z = false /\ ~ In 13 sig.
+                (sz <? 0)%Z = false /\ (sz =? 0)%Z = false /\ ~ In 13 sig /\ sig <> [].
   Proof.
     intros first H sz sig k Hp. unfold hparse in Hp.
     destruct first; destruct trailer as [t|]; cbv beta zeta in Hp; repeat (istep Hp; cbv beta iota in Hp); try discriminate Hp.
@@ -416,6 +425,7 @@ Section Frag.
              exists a, r4; unfold dhdr; cbn [pre app]; rewrite <- (dhdr_body a sg r4)
          end.
     all: repeat split; try assumption; try reflexivity.
+    all: try (intros Hnil; match goal with E : (match ?sg with [] => true | _ :: _ => false end) = false |- _ => rewrite Hnil in E; discriminate E end).
     all: rewrite ?app_length; cbn [List.length]; rewrite ?app_length; cbn [List.length]; rewrite ?app_length; cbn [List.length]; replace (List.length chunkSigKw) with 16%nat by reflexivity; lia.
   Qed.
 
@@ -423,9 +433,9 @@ Section Frag.
   Lemma hparse_none_data_len : forall first h b sz sig k,
     hparse first h = None -> hparse first (h ++ b) = Some (HData sz sig k) -> (List.length h < k)%nat.
   Proof.
-    intros first h b sz sig k Hn Hs. destruct (hparse_data_inv _ _ _ _ _ Hs) as [a [r [Heq [Hk [Ha [Hp [Hneg [Hz Hsg]]]]]]]].
+    intros first h b sz sig k Hn Hs. destruct (hparse_data_inv _ _ _ _ _ Hs) as [a [r [Heq [Hk [Ha [Hp [Hneg [Hz [Hsg Hsne]]]]]]]]].
     destruct (le_lt_dec k (List.length h)) as [Hle|Hlt]; [|exact Hlt]. exfalso. subst k.
-    rewrite (app_prefix_split _ _ _ _ Heq Hle) in Hn. rewrite (hparse_dhdr first a sig sz _ Ha Hp Hneg Hz Hsg) in Hn. discriminate Hn.
+    rewrite (app_prefix_split _ _ _ _ Heq Hle) in Hn. rewrite (hparse_dhdr first a sig sz _ Ha Hp Hneg Hz Hsg Hsne) in Hn. discriminate Hn.
   Qed.
 
   Lemma hparse_final_len : forall first h sig tr k, hparse first h = Some (HFinal sig tr k) -> (k <= List.length h)%nat.
@@ -930,7 +940,7 @@ Section Frag.
         assert (Hneg : (Z.of_nat (List.length d) <? 0)%Z = false) by (apply Z.ltb_ge; lia).
         assert (Hz : (Z.of_nat (List.length d) =? 0)%Z = false) by (apply Z.eqb_neq; destruct d; [exfalso; apply Hd; reflexivity|cbn [List.length]; lia]).
         assert (Hs13 : ~ In 13 sig) by (apply Hhex13).
-        rewrite (hparse_dhdr first a sig _ _ Ha Hp Hneg Hz Hs13). cbn [apply_h]. rewrite Hz.
+        rewrite (hparse_dhdr first a sig _ _ Ha Hp Hneg Hz Hs13 (Hhexne _)). cbn [apply_h]. rewrite Hz.
         set (L := List.length (dhdr first a sig)). replace (Z.of_nat L - Z.of_nat 0)%Z with (Z.of_nat L) by lia.
         assert (Hlenp : List.length (dhdr first a sig ++ d ++ E ++ rest) = (L + List.length (d ++ E ++ rest))%nat) by (rewrite app_length; reflexivity).
         rewrite Hlenp. replace ((Z.of_nat L <? 0)%Z || (Z.of_nat (L + List.length (d ++ E ++ rest)) <? Z.of_nat L)%Z) with false
@@ -1000,11 +1010,11 @@ Section Frag.
     Qed.
 
     Lemma prefix_none_data : forall first a sig sz R p q,
-      ~ In 59 a -> parse_hex a = Some sz -> (sz <? 0)%Z = false -> (sz =? 0)%Z = false -> ~ In 13 sig ->
+      ~ In 59 a -> parse_hex a = Some sz -> (sz <? 0)%Z = false -> (sz =? 0)%Z = false -> ~ In 13 sig -> sig <> [] ->
       p ++ q = dhdr first a sig ++ R -> (List.length p < List.length (dhdr first a sig))%nat -> hparse first p = None.
     Proof.
-      intros first a sig sz R p q Ha Hp Hn Hz Hs Hpq Hl. destruct (hparse first p) as [h|] eqn:E; [exfalso|reflexivity].
-      pose proof (hparse_mono _ _ _ q E) as Hm. rewrite Hpq, (hparse_dhdr first a sig sz R Ha Hp Hn Hz Hs) in Hm. inversion Hm; subst h.
+      intros first a sig sz R p q Ha Hp Hn Hz Hs Hsne Hpq Hl. destruct (hparse first p) as [h|] eqn:E; [exfalso|reflexivity].
+      pose proof (hparse_mono _ _ _ q E) as Hm. rewrite Hpq, (hparse_dhdr first a sig sz R Ha Hp Hn Hz Hs Hsne) in Hm. inversion Hm; subst h.
       destruct (hparse_data_inv _ _ _ _ _ E) as [a1 [r1 [Heq [Hk _]]]]. rewrite Heq, app_length in Hl. lia.
     Qed.
 
@@ -1055,7 +1065,7 @@ Section Frag.
         + (* the header is complete *)
           pose proof (app_prefix_split p q (dhdr first a sig) (d ++ E) Hpq Hge) as Hp2. fold L in Hp2. set (p2 := skipn L p) in *.
           assert (Hp2q : p2 ++ q = d ++ E) by (rewrite Hp2, <- app_assoc in Hpq; apply app_inv_head in Hpq; exact Hpq).
-          rewrite Hp2 in Hpar. rewrite (hparse_dhdr first a sig _ p2 Ha Hp Hneg Hz Hs13) in Hpar. cbn [apply_h] in Hpar. rewrite Hz in Hpar. fold L in Hpar.
+          rewrite Hp2 in Hpar. rewrite (hparse_dhdr first a sig _ p2 Ha Hp Hneg Hz Hs13 (Hhexne _)) in Hpar. cbn [apply_h] in Hpar. rewrite Hz in Hpar. fold L in Hpar.
           replace (Z.of_nat L - Z.of_nat 0)%Z with (Z.of_nat L) in Hpar by lia.
           replace ((Z.of_nat L <? 0)%Z || (Z.of_nat (List.length (dhdr first a sig ++ p2)) <? Z.of_nat L)%Z) with false in Hpar
             by (symmetry; apply orb_false_intro; apply Z.ltb_ge; rewrite ?app_length; fold L; lia).
@@ -1072,7 +1082,7 @@ Section Frag.
             -- unfold s3, hash_data, set_left, set_parsed. proj. exact He1.
             -- rewrite Hp2, Hp3, !app_length in Hf. lia.
           * injection Hpar as Ho Hsx; subst o sx. unfold good, stash_len, stash_bytes, s3, hash_data, set_left, set_parsed. proj. apply Z.ltb_ge in El. repeat split; [cbn; lia|lia|exact He1].
-        + rewrite (prefix_none_data first a sig _ (d ++ E) p q Ha Hp Hneg Hz Hs13 Hpq Hlt) in Hpar. unfold on_eof in Hpar. rewrite He1 in Hpar. injection Hpar as Ho Hsx; subst o sx.
+        + rewrite (prefix_none_data first a sig _ (d ++ E) p q Ha Hp Hneg Hz Hs13 (Hhexne _) Hpq Hlt) in Hpar. unfold on_eof in Hpar. rewrite He1 in Hpar. injection Hpar as Ho Hsx; subst o sx.
           unfold good, stash_len, stash_bytes, set_left, set_stash. proj. repeat split; try lia; try assumption.
           pose proof (dhdr_len first a prev d Hsa). fold sig L in H. lia.
     Qed.
